@@ -470,6 +470,9 @@ def redirect(tokeniser: 'Tokeniser') -> tuple[IP, ExtendedCommunities]:
         if not ASN4.validate(asn):
             raise ValueError(f'asn is invalid, must be 0 to {ASN.MAX_4BYTE} (32 bits): {asn}')
 
+        if nn_int < 0:
+            raise ValueError(f'Local administrator field can not be negative: {nn_int}')
+
         if asn > ASN.MAX_2BYTE:
             if nn_int >= pow(2, LOCAL_ADMIN_16_BITS):
                 raise ValueError(
